@@ -41,7 +41,7 @@ fn vq_c10_bbr_minimum_window() {
     kani::cover!(true, "reach:end");
 }
 
-//@ harness props=C10 tier=thorough level=bounded timeout=1800 bound="datagram size 1200 or 9000; bandwidth / data-volume / round / full-pipe model state as constructed by new(); cwnd, newly acked bytes, BBR state kind (Startup, Drain, ProbeRtt) symbolic"
+//@ harness props=C10 tier=quick level=bounded timeout=400 bound="datagram size 1200 or 9000; bandwidth / data-volume / round / full-pipe model state as constructed by new(); cwnd, newly acked bytes, BBR state kind (Startup, Drain, ProbeRtt) symbolic"
 //@ fn BbrCongestionController::set_cwnd
 //@ fn BbrCongestionController::bound_cwnd_for_model
 #[kani::proof]
